@@ -24,7 +24,7 @@ def FLOORS(tier):
          "complete-assignment": 100, "empty-assignment": 60, "plain-polynomial:subvalue": 60,
          "plain-polynomial:subgraph": 60, "values-container:defaultdict": 150, "values-container:Counter": 150,
          "sympy-number-coefficients": 200, "narrow-numpy-coefficients": 200, "values-container:MappingProxyType": 80,
-         "values-container:ChainMap": 80, "normalize-method:again-after-raw-removal": 40, "subgraph:refused-call-first": 100}
+         "values-container:ChainMap": 80, "normalize-method:again-after-raw-removal": 40, "subgraph:refused-call-first": 100, "normalize-method:refused-call-first": 50}
     for fn in ("subvalue", "subgraph", "normalize"):
         for t in ALLT:
             f["%s:%s" % (fn, t)] = 40 if q else 1500
@@ -256,6 +256,21 @@ def case(ctx, rng, idx):
         if method:
             ctx.cat("normalize-method")
             c = m.copy()
+            if rng.random() < 0.25:
+                # a call that must be refused (a value that is no number) comes first; the model must come out of it as it went in
+                bad_ = rng.choice([None, "2", [2], {}])
+                before_ = list(c.items())
+                try:
+                    c.normalize(bad_)
+                    refused_ = False
+                except Exception:   # noqa
+                    refused_ = True
+                ctx.cat("normalize-method:refused-call-first")
+                if refused_ and list(c.items()) != before_:
+                    ctx.violation("normalize-method:model-changed-by-a-refused-call", "normalize(%r) raised, and left the model as %r (was %r)" % (bad_, dict(c), dict(before_)), w)
+                    return
+                if not refused_:
+                    c = m.copy()
             ok, r = ctx.call("normalize-method", c.normalize, val, _w=w)
             if not ok:
                 return
